@@ -56,6 +56,11 @@ func HasBody(r *http.Request) bool {
 		return false
 	}
 
+	if r.Body == nil {
+		// nothing to probe: do not install a typed nil reader as the body
+		return false
+	}
+
 	rdr := newPeekingReader(r.Body)
 	r.Body = rdr
 	return rdr.HasContent()
